@@ -152,6 +152,15 @@ def run(ctx):
             cid = "slash-" + s_
             slash[cid] = s_
             loads.append({"id": cid, "ops": [{"op": "load", "dir": tdirs[s_] + "/"}, {"op": "exists", "dir": tdirs[s_] + "/"}, {"op": "release_all"}]})
+        # the same libraries named by other spellings of their path: relative to the working directory, with "." and
+        # ".." components, with doubled slashes
+        for j, s_ in enumerate(TEMPLATES):
+            t = tdirs[s_]
+            for k, d in enumerate((os.path.relpath(t), os.path.join(os.path.dirname(t), ".", os.path.basename(t)),
+                                   os.path.join(t, "..", os.path.basename(t)), t.replace("/", "//", 2), os.path.relpath(t) + "/")):
+                cid = "named-%d-spelling%d" % (j, k)
+                slash[cid] = s_
+                loads.append({"id": cid, "ops": [{"op": "load", "dir": d}, {"op": "exists", "dir": d}, {"op": "release_all"}]})
         # the same libraries under directory names with characters special to URIs, SQL or shells
         for j, s_ in enumerate(TEMPLATES):
             for k in range(1, len(DIR_NAME_POOL)):
@@ -202,7 +211,10 @@ def run(ctx):
             if named:
                 ctx.bump("specially_named_directories")
             if r.crash or not ev or "exc" in ev[0] or ev[0]["ret"]["version_name"] != s_ or ev[0]["ret"]["loaded_schema"] != s_:
-                shape = DIR_NAME_POOL[int(cid.split("-")[2])].format("NAME")[:20] if named else ""
+                shape = ""
+                if named:
+                    tail = cid.split("-")[2]
+                    shape = tail if tail.startswith("spelling") else DIR_NAME_POOL[int(tail)].format("NAME")[:20]
                 ctx.violation(f"specially-named-directory-misidentified {shape}" if named else f"trailing-slash-path-misidentified {s_}",
                               f"loading {s_} through a path {'named ' + shape if named else 'with a trailing slash'} gives "
                               f"{ev[0].get('ret') if ev else None}{ev[0].get('exc', {}).get('type') if ev and 'exc' in ev[0] else ''}", {"ops": r.case["ops"]})
